@@ -1339,10 +1339,17 @@ class BulkProof:
         d.add("N", "Z", LEN_MAX)
         d.add("Z", "M", 0)
         d.add("M", "N", 0)            # strictly increasing and in bounds ⇒ at most N indexes
-        d.add("Z", "T", 0)
-        d.add("T", "M", -1)
-        d.add("T", "J", 0)            # strictly increasing unsigned ⇒ indexes[t] ≥ t
-        d.add("J", "N", -1)
+        if tcase == "empty":
+            # the empty request (also an in-range call): no representative position exists; only the panic-freedom requirements
+            # collected on the way are of interest
+            d.add("M", "Z", 0)
+            d.add("T", "Z", -1)
+            d.add("J", "Z", -1)
+        else:
+            d.add("Z", "T", 0)
+            d.add("T", "M", -1)
+            d.add("T", "J", 0)            # strictly increasing unsigned ⇒ indexes[t] ≥ t
+            d.add("J", "N", -1)
         st = BState(d)
         M = ("M", 0)
         st.sl[self.p_idx] = ("I", Z0, M)
@@ -1450,4 +1457,11 @@ class BulkProof:
                 results.append(dict(blocks=list(pi.blocks), case=tcase if st.case_used else "-", ok=ok, why=why))
                 if not st.case_used:
                     break
+            # the same path under an empty request: nothing to establish, but it must not panic (requirements go to panic_obs)
+            try:
+                st = self.run_path(pi, "empty")
+                if not isinstance(st, tuple):
+                    results.append(dict(blocks=list(pi.blocks), case="empty", ok=True, why=""))
+            except Fail as ex:
+                results.append(dict(blocks=list(pi.blocks), case="empty", ok=False, why="empty request: %s" % ex))
         return results
